@@ -33,7 +33,7 @@ func (e *Engine) VerifyFunc(fn *ssa.Function, fc *FuncContract) (res *FuncResult
 	res = &FuncResult{Name: FuncName(fn), Ctx: ctx, Contract: fc, Used: map[string]bool{}}
 	f := &Frame{eng: e, ctx: ctx, fn: fn, vals: map[ssa.Value]string{}, tuples: map[ssa.Value][]string{},
 		reach: map[*ssa.BasicBlock]string{}, endSt: map[*ssa.BasicBlock]*State{}, contract: fc,
-		ordinals: map[string]int{}, closures: map[string]*closureVal{}, usedContracts: res.Used}
+		ordinals: map[string]int{}, closures: map[string]*closureVal{}, usedContracts: res.Used, assertsHit: map[string]bool{}, bridged: map[string]bool{}}
 	f.top = f
 	defer func() {
 		if r := recover(); r != nil {
@@ -107,7 +107,7 @@ func (e *Engine) VerifyFunc(fn *ssa.Function, fc *FuncContract) (res *FuncResult
 			case "Ptr":
 				f.modObjs = append(f.modObjs, "(pobj "+v.t+")")
 			case "Slice":
-				f.modObjs = append(f.modObjs, "(pobj (sbase "+v.t+"))")
+				f.modObjs = append(f.modObjs, "slice:"+v.t)
 			default:
 				f.bail("modifies %q: not a pointer or slice", m.Text)
 			}
@@ -118,6 +118,7 @@ func (e *Engine) VerifyFunc(fn *ssa.Function, fc *FuncContract) (res *FuncResult
 	f.run("true", st, args, bindings)
 	res.Loops = len(f.loops.heads)
 	// postconditions
+	exitAsserted := map[string]bool{}
 	var retReach []string
 	for i, r := range f.rets {
 		retReach = append(retReach, r.reach)
@@ -127,6 +128,38 @@ func (e *Engine) VerifyFunc(fn *ssa.Function, fc *FuncContract) (res *FuncResult
 		env := f.funcEnv(r.st, f.entry)
 		env.bindResults(fn.Signature, r.vals)
 		env.reach = r.reach
+		// exit lemmas: `assert at exit: e` may mention locals; each is proved at
+		// every return and then available to the clauses that follow it.
+		for _, a := range fc.Asserts {
+			if a.Anchor != "exit" {
+				continue
+			}
+			lenv := f.funcEnv(r.st, f.entry)
+			f.bindLocals(lenv, r.instr.Block(), r.st)
+			f.bindBlockLocals(lenv, r.instr.Block(), r.st)
+			for k, v := range env.vars {
+				if strings.HasPrefix(k, "ret") {
+					lenv.vars[k] = v
+				}
+			}
+			g, err := lenv.evalGoal(a.E)
+			if err != nil {
+				if strings.Contains(err.Error(), "unknown identifier") {
+					// a local that is not defined on this return path (early exit):
+					// the lemma cannot be stated here; it must be stated on some return.
+					continue
+				}
+				f.bail("assert at exit %q: %v", a.Text, err)
+			}
+			exitAsserted[a.Text] = true
+			name := fmt.Sprintf("%s#assert[exit: %s]#ret%d", shortFuncName(res.Name), normText(a.Text), i+1)
+			ctx.AddOblig(&Obligation{Name: name, Kind: "assert", Func: res.Name, Pos: f.posString(r.instr.Pos()), Clause: a.Text, Reach: r.reach, Goal: g, ModelTerms: f.params})
+			plain, err := lenv.evalBool(a.E)
+			if err != nil {
+				f.bail("assert at exit %q: %v", a.Text, err)
+			}
+			ctx.Fact(Implies(r.reach, plain))
+		}
 		for _, en := range fc.Ensures {
 			g, err := env.evalGoal(en.E)
 			if err != nil {
@@ -152,6 +185,16 @@ func (e *Engine) VerifyFunc(fn *ssa.Function, fc *FuncContract) (res *FuncResult
 			}
 			name := fmt.Sprintf("%s#fresh[%s]#ret%d", shortFuncName(res.Name), normText(fr.Text), i+1)
 			ctx.AddOblig(&Obligation{Name: name, Kind: "fresh", Func: res.Name, Pos: f.posString(r.instr.Pos()), Clause: fr.Text, Reach: r.reach, Goal: g, ModelTerms: f.params})
+		}
+	}
+	if fc != nil {
+		for _, a := range fc.Asserts {
+			if strings.HasPrefix(a.Anchor, "call ") && !f.assertsHit[a.Anchor+"|"+a.Text] {
+				f.bail("bind-error: assert at %s %q: no such call site in %s", a.Anchor, a.Text, fn.Name())
+			}
+			if a.Anchor == "exit" && !exitAsserted[a.Text] && len(f.rets) > 0 {
+				f.bail("assert at exit %q cannot be evaluated on any return path (unknown identifier)", a.Text)
+			}
 		}
 	}
 	res.ModelVars = f.collectModelVars()
@@ -192,10 +235,28 @@ func (f *Frame) storeFrame(pos token.Pos, what string, obj string, reach string)
 	if !top.framed {
 		return
 	}
-	alts := []string{fmt.Sprintf("(>= %s %s)", obj, top.alloc0), fmt.Sprintf("(< %s 0)", obj)}
-	_ = alts
+	f.storeFrameAt(pos, what, obj, "", "", reach)
+}
+
+// storeFrameAt: a write to object obj — at address addr, or to all elements of
+// slice region — must hit an object that is fresh since function entry, an
+// object listed in the modifies clause, or lie inside a slice listed there.
+func (f *Frame) storeFrameAt(pos token.Pos, what string, obj, addr, region string, reach string) {
+	top := f.top
+	if !top.framed {
+		return
+	}
 	goal := []string{fmt.Sprintf("(>= %s %s)", obj, top.alloc0)}
 	for _, m := range top.modObjs {
+		if strings.HasPrefix(m, "slice:") {
+			switch {
+			case addr != "":
+				goal = append(goal, fmt.Sprintf("(inslice %s %s)", addr, m[6:]))
+			case region != "":
+				goal = append(goal, fmt.Sprintf("(subrange %s %s)", region, m[6:]))
+			}
+			continue
+		}
 		goal = append(goal, Eq(obj, m))
 	}
 	f.oblig("frame", pos, what, reach, Or(goal...))
@@ -363,6 +424,37 @@ func (f *Frame) bindLocals(env *SpecEnv, at *ssa.BasicBlock, st *State) {
 			if t, ok := f.vals[phi]; ok {
 				env.vars[phi.Comment] = env.sv(t, phi.Type())
 			}
+		}
+	}
+}
+
+// bindBlockLocals: variables referenced (DebugRef) inside block at itself.
+func (f *Frame) bindBlockLocals(env *SpecEnv, at *ssa.BasicBlock, st *State) {
+	f.bindDebugRefs(env, at.Instrs, st)
+}
+
+func (f *Frame) bindDebugRefs(env *SpecEnv, instrs []ssa.Instruction, st *State) {
+	for _, in := range instrs {
+		d, ok := in.(*ssa.DebugRef)
+		if !ok {
+			continue
+		}
+		id, ok := d.Expr.(*ast.Ident)
+		if !ok {
+			continue
+		}
+		if _, isVar := d.Object().(*types.Var); !isVar {
+			continue
+		}
+		t, ok := f.tryVal(d.X)
+		if !ok {
+			continue
+		}
+		if d.IsAddr {
+			et := d.X.Type().Underlying().(*types.Pointer).Elem()
+			env.vars[id.Name] = env.sv(f.load(st, t, et), et)
+		} else {
+			env.vars[id.Name] = env.sv(t, d.X.Type())
 		}
 	}
 }
